@@ -78,6 +78,10 @@ def generate(rng, tier, idx):
         if "import \"./base.ucg\"" in text and d:
             text = text.replace("./base.ucg", "../base.ucg")
         ws.append({"path": d + lib_names[i], "text": text, "fixed": fixed})
+    if rng.chance(12):
+        # files the start-up index leaves out (`*_test.ucg`), importing each other: a cycle that exists on disk only
+        ws.append({"path": "checks_test.ucg", "text": 'let h = import "./helpers_test.ucg";\nlet ok = true;\nassert {ok = ok, desc = "checks"};\n', "fixed": None})
+        ws.append({"path": "helpers_test.ucg", "text": 'let c = import "./checks_test.ucg";\nlet helper = 1;\n', "fixed": None})
     ndocs = rng.between(1, 3)
     docs = []
     for i in range(ndocs):
@@ -112,13 +116,16 @@ def generate(rng, tier, idx):
     session = []
     state = {}   # doc index -> current buffer text (only while open)
     last_text = {}  # doc index -> last text the client sent (for position sampling on closed docs)
+    # libraries the simulated editor opens as tabs: the indexed ones.  (`*_test.ucg` files are not part of the server's index by design; a
+    # document importing one sees it only while it is open - see DESIGN, seen in passing - so they stay import targets on disk here.)
+    tabbable = [j for j, w_ in enumerate(ws) if not w_["path"].endswith("_test.ucg")]
     lib_open = set()
     hot = {}        # doc index -> character offsets of the most recent mutation in its current text
     fav_req = rng.sample(REQS, rng.between(1, 4))
-    if mode["strict"] and ws and rng.chance(25):
+    if mode["strict"] and tabbable and rng.chance(25):
         # an editor restoring its tabs: workspace libraries are opened with exactly their on-disk text, in some order, and some are closed
         # again.  Nothing was edited, so nothing may differ from a fresh server afterwards.
-        order = rng.shuffle(list(range(len(ws))))[:rng.between(1, len(ws))]
+        order = rng.shuffle(list(tabbable))[:rng.between(1, max(1, len(tabbable)))]
         for j in order:
             session.append({"m": "open_lib", "lib": j, "text": ws[j]["text"], "unsaved": False})
         for j in order:
@@ -129,7 +136,7 @@ def generate(rng, tier, idx):
         # documents may be opened and analysed against it meanwhile - and closed again without touching the disk.  didClose re-reads the
         # file; every document touched during the episode is sent again afterwards (often with byte-identical text), so at the end the
         # server must be indistinguishable from a fresh one.
-        j = rng.below(len(ws))
+        j = rng.choice(tabbable)
         unsaved = gen_ucg.semantic_edit(rng, ws[j]["text"]) if rng.chance(55) else gen_ucg.mutate(rng, ws[j]["text"])
         session.append({"m": "open_lib", "lib": j, "text": unsaved, "unsaved": True, "episode": True})
         cur = session[-1]["text"]
@@ -171,7 +178,7 @@ def generate(rng, tier, idx):
                 state[i] = text
                 last_text[i] = text
 
-    episode_at = rng.weighted([("none", 55), ("start", 20), ("end", 25)]) if (mode["strict"] and ws) else "none"
+    episode_at = rng.weighted([("none", 55), ("start", 20), ("end", 25)]) if (mode["strict"] and tabbable) else "none"
     if episode_at == "start":
         emit_episode()
     for step in range(nmsg):
@@ -230,7 +237,9 @@ def generate(rng, tier, idx):
             continue
         if k == "open_lib":
             # a workspace library opened with exactly its on-disk text (allowed in strict mode), or - overlay mode - with unsaved text
-            j = rng.below(len(ws))
+            if not tabbable:
+                continue
+            j = rng.choice(tabbable)
             if mode["overlay"] and rng.chance(50):
                 text = gen_ucg.mutate(rng, ws[j]["text"])
                 session.append({"m": "open_lib", "lib": j, "text": text, "unsaved": True})
@@ -393,6 +402,11 @@ def check_ranges(res, sb, kind, reply_obj, default_uri, text_of, tainted, ctx_fn
             # stricter count, metric only (LSP clamps characters beyond the line end)
             if sc > lsp_client.utf16_len(lines[sl]) or ec > lsp_client.utf16_len(lines[el]) + (1 if (sl, sc + 1) == (el, ec) else 0):
                 res.metric("ranges_character_beyond_line_end")
+                if kind == "diagnostics" and all(ord(c) < 128 for c in text) and "\r" not in text:
+                    # pure ASCII / LF text: the server's columns are the protocol's; its one-character error mark may sit right after the
+                    # last character, nothing may reach further
+                    res.violate("C20.range-char", "diagnostics-plain-text", "in a pure ASCII / LF document the diagnostic range %r reaches beyond the end of "
+                                "its line (%d characters)\n%s" % (r, len(lines[el]), ctx_fn()))
 
     visit(reply_obj, default_uri)
 
